@@ -87,6 +87,12 @@ def run_case(case, sets=None):
         Rs, ps, tags = planar_set(case.get("planar_plane", plane))
     elif case["set"] == "euler":
         Rs, ps, tags = euler_set()
+    elif case["set"] == "euler-inplane":
+        # general orientations whose positions already lie in the plane
+        Rs, ps, tags = euler_set()
+        Rs, ps, tags = Rs[::5], [p.copy() for p in ps[::5]], tags[::5]
+        for p in ps:
+            p[nd] = 0.0
     else:
         Rs, ps, tags = hard_set(case.get("seed", 0))
     if "only" in case:  # replay of a single pose
@@ -179,8 +185,8 @@ def shard_cases(cases):
     acc = Acc()
     for case in cases:
         res = run_case(case)
-        nposes = {"planar": len(headings()), "euler": 4096}.get(
-            case["set"], 107)
+        nposes = {"planar": len(headings()), "euler": 4096,
+                  "euler-inplane": 820}.get(case["set"], 107)
         acc.count("evaluations", nposes)
         acc.count("transitions")
         acc.outcome("%s/%s" % (case["set"], case["plane"]))
@@ -214,6 +220,11 @@ def run(ctx):
                 if ctx.thorough or len(reads) in (0, 3) or reads == ("quat", ):
                     cases.append({"set": "euler", "plane": plane,
                                   "ctor": ctor, "reads": list(reads)})
+    for plane in PLANES:
+        for ctor in ("se3", "quat"):
+            for reads in ((), ("pos", ), ("pos", "quat", "mat")):
+                cases.append({"set": "euler-inplane", "plane": plane,
+                              "ctor": ctor, "reads": list(reads)})
     # planar poses of one plane projected onto another plane (general input)
     for plane, other in (("xy", "xz"), ("xz", "yz"), ("yz", "xy")):
         cases.append({"set": "planar", "plane": plane, "planar_plane": other,
@@ -223,7 +234,8 @@ def run(ctx):
     acc.rule = (
         "3 planes x {planar poses: %d headings (1-degree grid over (-180,180] "
         "plus +-1e-9, +-1e-12 around 0, +-90, 180, 45), all 4096 Euler "
-        "triples on a pi/8 grid (both gimbal-lock attitudes), %d hard "
+        "triples on a pi/8 grid (both gimbal-lock attitudes; also with "
+        "positions already in the plane), %d hard "
         "rotations x hard positions} x {matrices, positions+quaternions} x "
         "all 8 subsets of views read before the call; evaluations = projected "
         "poses. non-trivial = non-planar input poses" %
